@@ -20,13 +20,16 @@ THEOREMS = [
     "BeyondVerif.C08.iter_no_stop",
     "BeyondVerif.C08.iter_incoherent",
     "BeyondVerif.C08.iter_zero_step",
-    "BeyondVerif.C08.iter_dates_list_partial",
-    "BeyondVerif.C08.ephem_iter_dates_partial",
+    "BeyondVerif.C08.iter_dates_list",
+    "BeyondVerif.C08.ephem_iter_dates_forward",
+    "BeyondVerif.C08.ephem_iter_dates_backward",
     "BeyondVerif.C08.ephem_iter_own",
-    "BeyondVerif.C08.ephem_iter_dates_list_partial",
-    "BeyondVerif.C08.numerical_iter_nostep",
-    "BeyondVerif.C08.numerical_iter_dates_partial",
-    "BeyondVerif.C08.numerical_iter_step_partial",
+    "BeyondVerif.C08.ephem_iter_own_backward",
+    "BeyondVerif.C08.ephem_iter_dates_list",
+    "BeyondVerif.C08.numIter_eq_numCore",
+    "BeyondVerif.C08.numerical_iter_dates_forward",
+    "BeyondVerif.C08.numerical_iter_dates_backward",
+    "BeyondVerif.C08.numerical_iter_dates_list",
     "BeyondVerif.C08.boundVal_bind",
     "BeyondVerif.C08.exec_inv",
     "BeyondVerif.C08.call_result_pure",
@@ -34,39 +37,54 @@ THEOREMS = [
     "BeyondVerif.C08.iter_eq_map_propagate",
     "BeyondVerif.C08.ident_table_matches",
     "BeyondVerif.C08.order_matches",
-    "BeyondVerif.C08W.numerical_beyond_stop",
-    "BeyondVerif.C08W.numerical_beyond_stop_step",
-    "BeyondVerif.C08W.numerical_short_span_raises",
-    "BeyondVerif.C08W.numerical_backward_raises",
-    "BeyondVerif.C08W.numerical_dates_list_raises",
-    "BeyondVerif.C08W.ephem_backward_yields_nothing",
-    "BeyondVerif.C08W.ephem_empty_list_yields_all",
-    "BeyondVerif.C08W.analytical_empty_list_raises",
-    "BeyondVerif.C08W.sgp4_stale_after_modify",
+    "BeyondVerif.C08W.numerical_nothing_beyond_stop",
+    "BeyondVerif.C08W.numerical_nothing_beyond_stop_step",
+    "BeyondVerif.C08W.numerical_short_span_resampled",
+    "BeyondVerif.C08W.numerical_short_span_listening",
+    "BeyondVerif.C08W.numerical_backward",
+    "BeyondVerif.C08W.numerical_backward_nostep",
+    "BeyondVerif.C08W.numerical_backward_negstep",
+    "BeyondVerif.C08W.numerical_dates_list",
+    "BeyondVerif.C08W.numerical_dates_list_unordered",
+    "BeyondVerif.C08W.numerical_dates_list_empty",
+    "BeyondVerif.C08W.ephem_backward",
+    "BeyondVerif.C08W.ephem_backward_posstep",
+    "BeyondVerif.C08W.ephem_empty_list_yields_nothing",
+    "BeyondVerif.C08W.analytical_empty_list_yields_nothing",
+    "BeyondVerif.C08W.sgp4_follows_modify",
     "BeyondVerif.C08W.kepler_follows_modify",
 ]
 LEVEL_TEXT = ("Lean theorems over an integer-microsecond model of Date.range, AnalyticalPropagator.iter, NumericalPropagator.iter + KeplerNum._iter, "
-              "Ephem.iter and of the binding / listener state: for all epochs, starts, stops, steps (any sign, dividing the span or not) the analytical "
-              "iterators yield exactly start + k*step, k = 0..floor(|stop-start|/|step|), in order, none beyond stop, forward and backward "
-              "(iter_dates_forward/backward, by induction over the loop); error kinds of the argument handling; explicit lists; Ephem and KeplerNum under "
-              "the hypotheses their control flow needs (_partial), with kernel-decided counter-witnesses for the excluded cases; for every history of "
-              "propagate/iter calls on shared propagator and listener objects the result of the next call equals that on fresh objects (propagate_pure, "
-              "by an invariant over histories). Model tied to the code by an exact differential correspondence (dates, error kinds, binding trace, "
+              "Ephem.iter / _iter_backward and of the binding / listener / Sgp4-record state. For all three families (analytical: SGP4, Kepler, J2, None, CW; "
+              "numerical: KeplerNum; ephemeris), for all epochs, starts, stops (date or timedelta), steps of either sign (dividing the span or not; absent = "
+              "integration step for KeplerNum), with or without listeners: the iterator yields exactly start + k*step, k = 0..floor(|stop-start|/|step|), in order, "
+              "none beyond stop, forward (step > 0) and backward (step flipped or negative) - iter_dates_forward/backward, numerical_iter_dates_forward/backward "
+              "(any span however short, stop on or off the integration grid), ephem_iter_dates_forward/backward (start, stop inside the tabulated span), by "
+              "induction over the loops; explicit lists are yielded as given, the empty list yields nothing (iter_dates_list, numerical_iter_dates_list, "
+              "ephem_iter_dates_list); error kinds of the argument handling; for EVERY history of propagate/iter calls and in-place modifications of the orbits on "
+              "shared propagator and listener objects, every propagator kind, the result of the next call equals that on fresh objects holding the current orbit "
+              "values (propagate_pure, by an invariant over histories; no exception for Sgp4 any more). Kernel-decided regression witnesses on the inputs of the "
+              "8 repaired findings. Model tied to the code by an exact differential correspondence (dates, error kinds, binding trace, whose trajectory, events, "
               "Listener.prev) on every run and by constants / setter kinds regenerated from the source.")
 LEVEL_NOTE = ("model hand-written (control flow), tied by exact correspondence; dates are exact integers in the model while Date carries float seconds "
               "(inputs on a 0.125 s grid where the float arithmetic is exact; date arithmetic itself is C03's); yielded STATES are abstract in the model "
-              "(f(orbit value, date)) and compared on the real API by the oracle only; 8 clauses are false of the current code (known findings); "
+              "(f(orbit value, date)) and compared on the real API by the oracle only; the numerical theorems take as a parameter any number m of integration steps "
+              "that reach stop and fill the interpolation order and assume fuel > m (fuel bounds the model's loops only; the code has no bound); no clause of the "
+              "property is known to be false of the current code (8 findings fixed in /repo, kept as regression families); "
               "Lean kernel + propext/Classical.choice/Quot.sound")
-TECHNIQUE = "Lean 4 proof by induction over the iteration loops and over call histories + kernel decide counter-witnesses; exact model/implementation correspondence"
+TECHNIQUE = "Lean 4 proof by induction over the iteration loops and over call histories + kernel decide regression witnesses; exact model/implementation correspondence"
 TRUSTED = [
     "harness/props/C08.py extract: reads Ephem.DEFAULT_ORDER and, per propagator class, whether the `orbit` setter stores the object or a copy (AST) -> Generated/IterConst.lean",
-    "correspondence: real Orbit / propagator / Ephem / Listener objects vs the compiled Lean model on identical keyword arguments and call histories; exact comparison of yielded dates, end kind (done / ValueError / AttributeError / cap), bound orbit, number of re-bindings, Listener.prev",
+    "correspondence: real Orbit / propagator / Ephem / Listener objects vs the compiled Lean model on identical keyword arguments and call histories; exact comparison of yielded dates, end kind (done / ValueError / AttributeError / cap), bound orbit, number of re-bindings, whose trajectory the states lie on, number of events, Listener.prev",
     "CPython generator semantics (a generator body does not run before the first next()) are modelled by the `consume = 0` case",
 ]
 ASSUMPTIONS = [
-    "Model/Iter.lean is hand-written; it is tied to base.py, keplernum.py, ephem.py, orbit.py, date.py, listeners.py by the exact correspondence run only",
+    "Model/Iter.lean is hand-written; it is tied to base.py, keplernum.py, sgp4.py, ephem.py, orbit.py, date.py, listeners.py by the exact correspondence run only",
     "dates are exact integers (microseconds) in the model; the implementation adds float seconds - exact on the generated 0.125 s grid, not in general (C03)",
-    "KeplerNum with a fixed-step method (rk4/euler) and self.step > 0: real_step == self.step; adaptive methods change the internal grid and are not modelled",
+    "KeplerNum with a fixed-step method (rk4/euler) and self.step > 0: real_step == self.step; adaptive methods change the internal grid and are not modelled; `real_steps=True` is not modelled",
+    "Ephem(points) sorts by date: modelled as the reversal of the (descending) list a backward integration produces",
+    "the positioning of KeplerNum at `start` (extrapolation / retropolation from the epoch padded to DEFAULT_ORDER points, one interpolation) always succeeds and only its date enters the model",
+    "Sgp4 compares (tobytes, date, form, frame) of the bound orbit with what its record was computed from: modelled as equality of the abstract orbit value",
     "a call is atomic: a suspended generator is either dropped or never resumed after another call on the same objects",
     "in-place modifications of an orbit by the user happen between calls (modelled as the call `modify`), not while an iterator is suspended",
 ]
@@ -74,16 +92,20 @@ NOT_COVERED = [
     "receiver_unchanged: in the model calls have no write access to the orbit store (a modelling decision, not a theorem); on the real code it is checked by the oracle's before/after snapshots (array bytes, date, form, frame, maneuvers, propagator identity) only",
     "equality of each yielded state with a direct propagation is by construction in the model (states are f(value, date)); on the real code: oracle, bitwise for analytical propagators and Ephem, 1 m / 1 mm/s for KeplerNum (two different RK4 paths)",
     "resuming a suspended generator after another orbit was bound to the same shared propagator follows the LAST bound orbit (AnalyticalPropagator.iter reads self.orbit lazily) - outside the atomic-call assumption",
-    "a failed Sgp4 binding (Tle.from_orbit raises) leaves propagator._orbit set with the previous satellite record: the next call on that orbit skips the re-binding (observed once with an invalid orbit; not part of the quantifier; repaired by proposed fix C08-g as a side effect)",
-    "event search (_bisect) is C10's; listeners enter here only through clear_listeners / Listener.prev",
+    "a failing Sgp4 binding (Tle.from_orbit raises): since c604b3e the setter binds only after success; binding failures are not in the model",
+    "inputs outside the quantifier, modelled and in the correspondence but without theorem: a forward range with a negative step (analytical: ValueError at once, iter_incoherent; Ephem and KeplerNum: dates until the span is left, then ValueError); step = 0 (analytical: ValueError; Ephem / KeplerNum forward: never terminates, both sides stop at the cap; KeplerNum backward: ValueError); KeplerNum.iter(start=None): AttributeError",
+    "event search (_bisect) is C10's; listeners enter here only through clear_listeners / Listener.prev / the number of events found per call",
 ]
-OPEN = ["ownPts (Ephem.iter without step) is proved equal to the code's loop by definition only; its characterisation as 'the tabulated dates within [start, stop]' for sorted points is not proved",
-        "Dates given as a DateRange object: modelled and in the correspondence, no theorem"]
+OPEN = ["ownPts / ownPtsBack (Ephem.iter without step) are proved equal to the code's loops by definition only; their characterisation as 'the tabulated dates within [start, stop]' for sorted points is proved for integration grids only (Lemmas/Iter.lean ownPts_grid, used by numerical_iter_dates_forward)",
+        "Ephem.iter with start or stop outside the tabulated span (strict: ValueError; strict=False: clamped, forward and backward): modelled and in the correspondence, no theorem",
+        "Dates given as a DateRange object (all three families; for KeplerNum also backward DateRanges): modelled and in the correspondence, no theorem"]
 RULE = ("correspondence: per propagator kind (sgp4, kepler, j2, none, num, cw, ephem) random keyword combinations of iter (start absent/None/before/at/after epoch, "
-        "stop date/timedelta/absent, step absent/None/positive/negative/zero, dates list / DateRange, strict) and random histories of <= 8 propagate/iter calls on two "
-        "orbits (every element different) sharing one propagator and two listeners (full, partial, zero consumption; start/stop/step, explicit dates and DateRange forms; "
-        "in-place modifications of the orbits between calls), the trace compared being dates, end kind, bound orbit, number of re-bindings, Listener.prev and WHOSE trajectory "
-        "(orbit object, number of modifications seen) the returned state lies on; non-trivial = >= 2 dates yielded resp. >= 2 calls; distinct = distinct request line. "
+        "stop date/timedelta/absent, step absent/None/positive/negative/zero, dates list (empty, unordered, repeated) / DateRange (both directions), strict, backward "
+        "ranges inside and outside an ephemeris span) and random histories of <= 8 propagate/iter calls on two "
+        "orbits (every element different) sharing one propagator and two listeners that fire on a date pattern (full, partial, zero consumption; start/stop/step, explicit "
+        "dates and DateRange forms; in-place modifications of the orbits between calls), the trace compared being dates, end kind, bound orbit, number of re-bindings, "
+        "number of events, Listener.prev and WHOSE trajectory (orbit object, number of modifications seen) the returned state lies on; non-trivial = >= 2 dates yielded "
+        "resp. >= 2 calls; distinct = distinct request line. "
         "oracle: the contract list start + k*step on the real API for all 7 kinds both directions, yielded state == direct propagate from fresh objects, "
         "explicit lists, histories vs fresh objects (bitwise), receiver snapshots")
 U = 125_000            # grid of the generated dates, in microseconds (0.125 s: exact in the float seconds of Date)
@@ -143,11 +165,10 @@ class World:
         self.listeners = [NodeListener(), ApsideListener()]
         if silent_listeners:
             # test listeners for the correspondence: the watched quantity is a function of the DATE alone, it changes sign
-            # every FLIP microseconds (so the model knows between which consecutive dates an event is found), except for the
-            # numerical propagator where it never does (`_bisect` there needs an interpolable span: known finding)
+            # every FLIP microseconds (so the model knows between which consecutive dates an event is found)
             from beyond.propagators.listeners import Event
             e0 = self.e
-            flip = (kind != "num")
+            flip = True
 
             class Flip(Listener):
                 def info(self, orb):
@@ -419,6 +440,12 @@ def gen_args(rng, kind, h, npts):
     if kind == "ephem" and rng.random() < 0.15 and "stop" in a and a["stop"] is not None:
         a["stop"] = total + rng.randrange(1, 4 * h // U) * U
         a["strict"] = rng.random() < 0.5
+    if kind == "ephem" and rng.random() < 0.12:
+        # backward range reaching out of the tabulated span on either side (Ephem._iter_backward: strict / clamped)
+        a.pop("stopdelta", None)
+        a["start"] = rng.choice([total + rng.randrange(1, 4 * h // U) * U, rng.randrange(0, total // U + 1) * U, -rng.randrange(1, 4 * h // U) * U])
+        a["stop"] = rng.choice([a["start"] - rng.randrange(1, 2 * total // U + 2) * U, -rng.randrange(1, 4 * h // U) * U])
+        a["strict"] = rng.random() < 0.5
     st = rng.random()
     if st < (0.7 if kind in ("num", "ephem") else 0.92):
         a["step"] = step
@@ -639,7 +666,7 @@ def check_iter(out, w, a, order, npts, states=True):
               divides="divides" if (stop - start) % abs(step) == 0 else "off-grid", start="at-epoch" if start == 0 else ("after" if start > 0 else "before"))
     pub = {k: v for k, v in a.items() if not k.startswith("_")}
     inp = {"check": "iter", "kind": kind, "h": w.h, "npts": npts, "args": pub}
-    if kind == "ephem" and npts < order and a.get("step") is not None and (stop >= start or (got, fin) == ([], "value-error")):
+    if kind == "ephem" and npts < order and a.get("step") is not None:
         # documented: Ephem.interpolate raises ValueError when the order of interpolation is insufficient
         if (got, fin) != ([], "value-error"):
             out.fail("ephem-iter-few-points-not-refused", "Ephem with fewer points than the interpolation order: resampling did not raise ValueError",
@@ -678,12 +705,14 @@ def gen_call(rng, kind, h, npts, n_orb, modify=True):
     if modify and kind != "ephem" and r0 < 0.12:
         return {"op": "modify", "orb": idx}
     if r0 < 0.30:
-        # explicit list of dates (a DateRange for the numerical propagator, which takes nothing else), spread over an orbit
-        hi = (npts - 1) * h // U if kind == "ephem" else 90 * 60 * 8
+        # explicit list of dates spread over an orbit (numerical propagator: a few integration steps around the epoch; also as a
+        # DateRange object, forward and backward)
+        hi = (npts - 1) * h // U if kind == "ephem" else (6 * h // U if kind == "num" else 90 * 60 * 8)
         lo = 0 if kind == "ephem" else -hi
-        if kind == "num":
+        if kind == "num" and rng.random() < 0.5:
             s0 = rng.randrange(-4 * h // U, 4 * h // U) * U
-            a = {"range": [s0, s0 + rng.choice([7, 9, 12]) * h, h, True], "listeners": ls}
+            sg = rng.choice([1, 1, -1])
+            a = {"range": [s0, s0 + sg * rng.choice([2, 7, 9, 12]) * h, sg * rng.choice([h, h // 2, 3 * h // 4]), rng.random() < 0.7], "listeners": ls}
         else:
             a = {"dates": [rng.randrange(lo, hi + 1) * U for _ in range(rng.choice([1, 2, 3, 5]))], "listeners": ls}
         return {"op": "iter", "orb": idx, "args": a, "consume": rng.choice([CAP, CAP, 2])}
